@@ -26,6 +26,13 @@ func init() {
 	)
 }
 
+func init() {
+	MutantMore["C47/aead-key-aliased"] = [][2]string{
+		{"\tret := new(xchacha20poly1305)\n\tcopy(ret.key[:], key)\n\treturn ret, nil", "\treturn &xchacha20poly1305{key: (*[KeySize]byte)(key)}, nil"},
+		{"&c.key)", "c.key)"},
+	}
+}
+
 func c47KeyOwned(c *engine.Ctx) {
 	p := progWith(c, "tm2/pkg/crypto/xchacha20poly1305")
 	if p == nil {
